@@ -93,7 +93,7 @@ def main():
             return 2
         for p in props:
             t0 = time.time()
-            r = subprocess.run([os.path.join(VERIF, "run"), p, "--tier", tier], env=dict(os.environ, VERIF_REPLAY_DIR="/tmp/seedreplays", VERIF_REPO=target),
+            r = subprocess.run([os.path.join(VERIF, "run"), p, "--tier", tier], env=dict(os.environ, VERIF_REPLAY_DIR="/tmp/seedreplays", VERIF_EVIDENCE_DIR="/tmp/seedevidence", VERIF_REPO=target),
                                text=True, stdout=subprocess.PIPE, stderr=subprocess.PIPE)
             verdict = {0: "missed", 1: "caught", 2: "inconclusive"}.get(r.returncode, str(r.returncode))
             first = ""
